@@ -7,13 +7,6 @@ COMP = "svclife"
 
 # genuine mismatches between the property and the code: replayed on the implementation in every run
 FINDINGS = {
-    "finding:reqres-slice-payload-zero-limit-panics":
-        "request_response builders with a slice payload ([T] request and/or response, and every language binding, which uses [CustomPayloadMarker] for both) "
-        "do not call adjust_configuration_to_meaningful_values in create_with_attributes (builder/request_response.rs:1289-1310, 1429-1450, 1563-1580; the "
-        "fixed-size variant :1154-1170 and open_or_create_impl :974 do): max_servers(0), max_clients(0) or max_nodes(0) reach the dynamic config -> fatal "
-        "panic inside create instead of a service or a documented error (max_active_requests_per_client / max_loaned_requests / "
-        "max_borrowed_responses_per_pending_response / max_response_buffer_size = 0 are written to the static config unadjusted); the same defect as the "
-        "publish-subscribe one fixed by 0c61d51 (theorems create_outcome_documented / clamped_create_never_panics hold for the model, which adjusts)",
     "finding:same-node-concurrent-create-removes-service-tag":
         "Node::create_service_tag treats AlreadyExists as `this node already uses the service` (node/mod.rs:1083-1103) and returns None; when two "
         "threads of one node call create (or create / open) for the same service concurrently (builders are Send), the thread that made the tag "
@@ -358,15 +351,13 @@ RR_SLICE_CASE = ["new ipc", "node 0", "create 0 0 0 rr sv=0 qt=xu64_8_8"]
 
 
 def replay_findings(ctx, samenode_rounds):
+    # fixed defect (request-response builders of slice payloads did not adjust zero limits): the case stays as a regression replay;
+    # it is compared with the model (which adjusts), so a return of the panic is a violation
     impl, model = replay_case(RR_SLICE_CASE)
     ctx.count("findings.replayed")
-    if impl and impl[-1] == "PANIC":
-        report_finding(ctx, "finding:reqres-slice-payload-zero-limit-panics",
-                       dict(engine="svclife", component=COMP, ops=RR_SLICE_CASE, impl=impl, model=model), f"`{RR_SLICE_CASE[-1]}` => PANIC (model: {model[-1] if model else '?'})")
-    else:
-        ctx.log(f"[finding] reqres-slice-payload-zero-limit-panics no longer reproduces (`{RR_SLICE_CASE[-1]}` => {impl[-1] if impl else '?'}): "
-                "remove it from FINDINGS and the zero-limit filter for custom request-response payloads from harness/src/svc/generate.rs")
-        ctx.extra.setdefault("findings_gone", []).append("finding:reqres-slice-payload-zero-limit-panics")
+    if impl != model or not impl or impl[-1] == "PANIC":
+        ctx.violation("regress:reqres-slice-zero-limit", f"`{RR_SLICE_CASE[-1]}` => {impl[-1] if impl else '?'} (model: {model[-1] if model else '?'})",
+                      dict(engine="svclife", component=COMP, ops=RR_SLICE_CASE, impl=impl, model=model))
     p = subprocess.run([SVCLIFE, "stress", str(samenode_rounds), "0", "0", str(ctx.seed), "samenode"], capture_output=True, text=True, timeout=1200)
     m = re.search(r"winner-without-tag (\d+)", p.stdout)
     ctx.count("findings.replayed")
